@@ -5,7 +5,7 @@ from .seqlib import exc_name
 PROPERTY = "C17"
 DRIVER = "TraitsVerif/Driver/Adapt.lean"
 PROPS_MODULES = ["TraitsVerif.Props.C17"]
-TRANSLATORS = []
+TRANSLATORS = ["pyadapt"]
 RULE = ("real AdaptationManager (fresh per case) over hierarchies built with types.new_class (plain / abc.ABC / HasTraits / "
         "Interface / ABCHasTraits, single and multiple inheritance, ABC register, builtin object and NoneType), offer "
         "sequences incl. distinct offers with equal endpoints, the same offer object registered twice, cycles, identity "
@@ -29,6 +29,17 @@ RULE = ("real AdaptationManager (fresh per case) over hierarchies built with typ
         "distinct = distinct output line")
 TRUSTED = ["issubclass and inspect.getmro are computed by CPython from the real classes and sent to the model as tables "
            "(recomputed and compared in run_impl)",
+           "source tie (translate/pyadapt.py -> Generated/AdaptProg.lean, Model/PyA.lean, C17_search_is_source): the source "
+           "text of provides_protocol, mro_distance_to_protocol, _adapt, _get_applicable_offers and "
+           "_by_weight_then_from_protocol_specificity is interpreted; PARAMETERS of the interpreter: issubclass and "
+           "inspect.getmro(t)[1:] (tables), self._adaptation_offers.items() (the registry in dict order, keys opaque), "
+           "type(adaptee), offer.factory (factory table, call ordinal = number of factory calls so far); MODELLED "
+           "BUILTINS: itertools.count/next (counter from 0), list.sort(key=cmp_to_key(f)) = pySort with x<y := f(x,y)<0 "
+           "(stuck if f does not return an int), heappush/heappop = sorted list by the int triple in the first tuple "
+           "component (equal triples compare as not-less; they cannot occur: the counter is unique), tuple/list displays, "
+           "unpacking, for-else/break, while (fuel), is / is not / not in, + on ints and lists; lists have value "
+           "semantics (the translator rejects aliasing of a mutated list); the tie holds for registries without empty "
+           "buckets (C17_registry_nonempty: what register_offer builds)",
            "CPython 3.12 list.sort on fewer than 64 items = count_run + binarysort (model pySort), validated by the `so` "
            "stream with arbitrary comparison tables; heapq = min-priority queue (model: sorted list), validated by the `hq` stream",
            "AdaptationOffer's lazy import_symbol of protocol names is exercised (kind l) but not modelled: the model "
